@@ -679,3 +679,747 @@ Proof.
   - eapply Permutation_NoDup; eauto.
   - eapply Permutation_in; eauto.
 Qed.
+
+(** * Proving [feq (absf w') m'] without the invariant of the post-state *)
+
+Lemma rf_feq_intro w' (m' : fmap) :
+  (forall e cv, In (e, cv) (abs w') -> m' e = Some cv) ->
+  (forall e, m' e <> None -> exists cv, In (e, cv) (abs w')) ->
+  feq (absf w') m'.
+Proof.
+  intros HA HB e. destruct (absf w' e) as [cv|] eqn:E.
+  - apply rf_absf_some_in in E. symmetry; auto.
+  - destruct (m' e) as [cv|] eqn:E2; auto.
+    destruct (HB e) as [cv' Hin]; [congruence|].
+    rewrite rf_absf_none in E. exfalso; eapply E; eauto.
+Qed.
+
+Lemma rf_fupd_eq (m : fmap) e v : fupd m e v e = v.
+Proof. unfold fupd. rewrite rf_eid_eqb_refl. reflexivity. Qed.
+
+Lemma rf_fupd_neq (m : fmap) e v e' : e' <> e -> fupd m e v e' = m e'.
+Proof. intros H. unfold fupd. apply rf_eid_eqb_neq in H. rewrite H. reflexivity. Qed.
+
+Lemma rf_absf_R_inv w e cv :
+  absf w e = Some cv -> exists s v, rf_R (w_archs w) s e v /\ cv = row_abs s v.
+Proof. intros H. apply rf_absf_some_in in H. apply rf_in_abs in H. exact H. Qed.
+
+(** Same rows, same map. *)
+Lemma rf_feq_same w w' :
+  Inv w ->
+  (forall s e v, rf_R (w_archs w') s e v <-> rf_R (w_archs w) s e v) ->
+  feq (absf w') (absf w).
+Proof.
+  intros HI HR. apply rf_feq_intro.
+  - intros e cv Hin. apply rf_in_abs in Hin as [s [v [HRr ->]]].
+    apply HR in HRr. apply rf_absf_R; auto.
+  - intros e Hne. destruct (absf w e) as [cv|] eqn:E; [|congruence].
+    apply rf_absf_R_inv in E as [s [v [HRr ->]]].
+    exists (row_abs s v). apply rf_in_abs. exists s, v; split; auto. apply HR; auto.
+Qed.
+
+(** The row of [e] is replaced (or created). *)
+Lemma rf_feq_set w w' e sh2 vals2 :
+  Inv w ->
+  (forall s e' v', rf_R (w_archs w') s e' v' <->
+     (rf_R (w_archs w) s e' v' /\ e' <> e) \/ (s = sh2 /\ e' = e /\ v' = vals2)) ->
+  feq (absf w') (fupd (absf w) e (Some (row_abs sh2 vals2))).
+Proof.
+  intros HI HR. apply rf_feq_intro.
+  - intros e' cv Hin. apply rf_in_abs in Hin as [s [v [HRr ->]]].
+    apply HR in HRr as [[HRr Hne]|[-> [-> ->]]].
+    + rewrite rf_fupd_neq by auto. apply rf_absf_R; auto.
+    + apply rf_fupd_eq.
+  - intros e' Hne. destruct (rf_eid_dec e' e) as [->|Hd].
+    + exists (row_abs sh2 vals2). apply rf_in_abs. exists sh2, vals2. split; auto.
+      apply HR. right; auto.
+    + rewrite rf_fupd_neq in Hne by auto.
+      destruct (absf w e') as [cv|] eqn:E; [|congruence].
+      apply rf_absf_R_inv in E as [s [v [HRr ->]]].
+      exists (row_abs s v). apply rf_in_abs. exists s, v; split; auto.
+      apply HR. left; auto.
+Qed.
+
+(** A row with a key that is not in the map is added. *)
+Lemma rf_feq_add w w' id sh2 vals2 :
+  Inv w -> absf w id = None ->
+  (forall s e' v', rf_R (w_archs w') s e' v' <->
+     rf_R (w_archs w) s e' v' \/ (s = sh2 /\ e' = id /\ v' = vals2)) ->
+  feq (absf w') (fupd (absf w) id (Some (row_abs sh2 vals2))).
+Proof.
+  intros HI Hn HR. apply rf_feq_set; auto.
+  intros s e' v'. rewrite HR. split; intros [H|H]; auto.
+  - left; split; auto. intros ->.
+    rewrite (rf_absf_R _ _ _ _ HI H) in Hn. discriminate.
+  - left; tauto.
+Qed.
+
+(** The row of [e] is deleted. *)
+Lemma rf_feq_del w w' e :
+  Inv w ->
+  (forall s e' v', rf_R (w_archs w') s e' v' <-> rf_R (w_archs w) s e' v' /\ e' <> e) ->
+  feq (absf w') (fupd (absf w) e None).
+Proof.
+  intros HI HR. apply rf_feq_intro.
+  - intros e' cv Hin. apply rf_in_abs in Hin as [s [v [HRr ->]]].
+    apply HR in HRr as [HRr Hne].
+    rewrite rf_fupd_neq by auto. apply rf_absf_R; auto.
+  - intros e' Hne. destruct (rf_eid_dec e' e) as [->|Hd].
+    + rewrite rf_fupd_eq in Hne. congruence.
+    + rewrite rf_fupd_neq in Hne by auto.
+      destruct (absf w e') as [cv|] eqn:E; [|congruence].
+      apply rf_absf_R_inv in E as [s [v [HRr ->]]].
+      exists (row_abs s v). apply rf_in_abs. exists s, v; split; auto.
+      apply HR. auto.
+Qed.
+
+(** A batch of rows with fresh, pairwise distinct keys is added. *)
+Lemma rf_fupd_all_notin kvs : forall (m : fmap) e,
+  ~ In e (map fst kvs) -> fupd_all m kvs e = m e.
+Proof.
+  induction kvs as [|[k v] t IH]; intros m e Hn; cbn [fupd_all]; [reflexivity|].
+  cbn [map fst] in Hn. rewrite IH by (intros Hc; apply Hn; right; exact Hc).
+  apply rf_fupd_neq. intros ->. apply Hn; left; reflexivity.
+Qed.
+
+Lemma rf_fupd_all_in kvs : forall (m : fmap) e cv,
+  NoDup (map fst kvs) -> In (e, cv) kvs -> fupd_all m kvs e = Some cv.
+Proof.
+  induction kvs as [|[k v] t IH]; intros m e cv ND Hin; [destruct Hin|].
+  cbn [map fst] in ND. inversion ND as [|? ? Hnin ND']; subst.
+  cbn [fupd_all]. destruct Hin as [Heq|Hin].
+  - inversion Heq; subst. rewrite rf_fupd_all_notin by auto. apply rf_fupd_eq.
+  - apply IH; auto.
+Qed.
+
+Lemma rf_feq_ext w w' sh2 (news : list (eid * list val)) :
+  Inv w -> NoDup (map fst news) ->
+  (forall e v, In (e, v) news -> absf w e = None) ->
+  (forall s e v, rf_R (w_archs w') s e v <->
+     rf_R (w_archs w) s e v \/ (s = sh2 /\ In (e, v) news)) ->
+  feq (absf w')
+      (fupd_all (absf w) (map (fun p => (fst p, row_abs sh2 (snd p))) news)).
+Proof.
+  intros HI ND Hfresh HR.
+  remember (map (fun p => (fst p, row_abs sh2 (snd p))) news) as kvs eqn:Ekvs.
+  assert (Hk0 : map fst kvs = map fst news).
+  { rewrite Ekvs. rewrite map_map. apply map_ext. intros p; reflexivity. }
+  assert (NDk : NoDup (map fst kvs)) by (rewrite Hk0; exact ND).
+  assert (Hkeys : forall x, In x (map fst kvs) -> exists v0, In (x, v0) news).
+  { intros x Hx. rewrite Hk0 in Hx. apply in_map_iff in Hx as [[e0 v0] [He0 Hin0]].
+    cbn [fst] in He0; subst; eauto. }
+  apply rf_feq_intro.
+  - intros e cv Hin. apply rf_in_abs in Hin as [s [v [HRr ->]]].
+    apply HR in HRr as [HRr|[-> Hin]].
+    + rewrite rf_fupd_all_notin.
+      * apply rf_absf_R; auto.
+      * intros Hk. apply Hkeys in Hk as [v0 Hin0].
+        specialize (Hfresh _ _ Hin0).
+        rewrite (rf_absf_R _ _ _ _ HI HRr) in Hfresh. discriminate.
+    + apply rf_fupd_all_in.
+      * exact NDk.
+      * rewrite Ekvs. apply in_map_iff. exists (e, v). auto.
+  - intros e Hne. destruct (in_dec rf_eid_dec e (map fst news)) as [Hk|Hk].
+    + apply in_map_iff in Hk as [[e0 v0] [He0 Hin0]]. cbn [fst] in He0. subst e0.
+      exists (row_abs sh2 v0). apply rf_in_abs. exists sh2, v0. split; auto.
+      apply HR. right; auto.
+    + rewrite rf_fupd_all_notin in Hne.
+      2:{ intros Hc. apply Hkeys in Hc as [v0 Hc]. apply Hk.
+          apply in_map_iff. exists (e, v0); auto. }
+      destruct (absf w e) as [cv|] eqn:E; [|congruence].
+      apply rf_absf_R_inv in E as [s [v [HRr ->]]].
+      exists (row_abs s v). apply rf_in_abs. exists s, v; split; auto.
+      apply HR. left; auto.
+Qed.
+
+(** * How the table primitives act on the row relation *)
+
+Lemma rf_R_upd_arch sh f archs s e v :
+  rf_R (upd_arch sh f archs) s e v <->
+  exists a, In a archs /\ a_shape a = s /\
+            In (e, v) (if shape_eqb s sh then f (a_rows a) else a_rows a).
+Proof.
+  unfold rf_R, upd_arch. split.
+  - intros [b [Hb [Hs Hin]]]. apply in_map_iff in Hb as [a [Hab Ha]].
+    exists a. split; auto.
+    destruct (shape_eqb (a_shape a) sh) eqn:E; subst b; cbn [a_shape a_rows] in *;
+      subst s; rewrite E; auto.
+  - intros [a [Ha [Hs Hin]]].
+    exists (if shape_eqb (a_shape a) sh then mkArch (a_shape a) (f (a_rows a)) else a).
+    split; [apply in_map_iff; exists a; auto|].
+    subst s. destruct (shape_eqb (a_shape a) sh); cbn [a_shape a_rows]; auto.
+Qed.
+
+Lemma rf_In_ensure_arch_l sh archs a : In a archs -> In a (ensure_arch sh archs).
+Proof.
+  unfold ensure_arch. destruct (find_arch sh archs); auto.
+  intros H; apply in_or_app; auto.
+Qed.
+
+Lemma rf_R_ensure_arch sh archs s e v :
+  rf_R (ensure_arch sh archs) s e v <-> rf_R archs s e v.
+Proof.
+  unfold rf_R. split; intros [a [Ha [Hs Hin]]].
+  - apply In_ensure_arch in Ha as [Ha| ->].
+    + exists a; auto.
+    + cbn [a_rows] in Hin. destruct Hin.
+  - exists a. split; auto. apply rf_In_ensure_arch_l; auto.
+Qed.
+
+Lemma rf_R_ensure_for_entity sh archs tid archs1 tid1 s e v :
+  ensure_for_entity sh archs tid = Some (archs1, tid1) ->
+  (rf_R archs1 s e v <-> rf_R archs s e v).
+Proof.
+  unfold ensure_for_entity. intros H.
+  destruct (mem_shape sh tid).
+  - destruct (find_arch sh archs); inversion H; subst. tauto.
+  - inversion H; subst. apply rf_R_ensure_arch.
+Qed.
+
+Lemma rf_R_push sh news archs a0 s e v :
+  find_arch sh archs = Some a0 ->
+  (rf_R (upd_arch sh (fun rows => rows ++ news) archs) s e v <->
+   rf_R archs s e v \/ (s = sh /\ In (e, v) news)).
+Proof.
+  intros Hf. rewrite rf_R_upd_arch. split.
+  - intros [a [Ha [Hs Hin]]]. destruct (shape_eqb s sh) eqn:E.
+    + apply shape_eqb_eq in E. apply in_app_or in Hin as [Hin|Hin].
+      * left. exists a; auto.
+      * right; auto.
+    + left. exists a; auto.
+  - intros [[a [Ha [Hs Hin]]] | [-> Hin]].
+    + exists a. split; auto. split; auto.
+      destruct (shape_eqb s sh); auto. apply in_or_app; auto.
+    + exists a0. split; [eapply find_arch_In; eauto|].
+      split; [eapply find_arch_shape; eauto|].
+      rewrite shape_eqb_refl. apply in_or_app; auto.
+Qed.
+
+Lemma rf_In_single (e e0 : eid) (v v0 : list val) :
+  In (e, v) [(e0, v0)] <-> e = e0 /\ v = v0.
+Proof.
+  split.
+  - intros [H|[]]. inversion H; auto.
+  - intros [-> ->]. left; reflexivity.
+Qed.
+
+Tactic Notation "rf_bind" hyp(H) simple_intropattern(pat) ident(E) :=
+  match type of H with
+  | obind ?o _ = _ => destruct o as [pat|] eqn:E; cbn [obind] in H; [|discriminate]
+  end.
+
+Lemma rf_move_row sh' id vals archs slots archs2 slots2 :
+  move_row sh' id vals archs slots = Some (archs2, slots2) ->
+  forall s e v, rf_R archs2 s e v <-> rf_R archs s e v \/ (s = sh' /\ e = id /\ v = vals).
+Proof.
+  unfold move_row. cbv zeta. intros H.
+  rf_bind H a' Ef.
+  rf_bind H sl Es.
+  inversion H; subst archs2 slots2. intros s e v.
+  rewrite (rf_R_push _ _ _ _ s e v Ef). rewrite rf_R_ensure_arch.
+  rewrite rf_In_single. tauto.
+Qed.
+
+Lemma rf_R_shapes w sh e vals :
+  Inv w -> rf_R (w_archs w) sh e vals ->
+  length sh = w_n w /\ length vals = count_true sh.
+Proof.
+  intros HI [a [Ha [Hs Hin]]]. destruct (inv_shapes HI _ Ha) as [H1 H2].
+  subst sh. split; auto. apply (H2 _ Hin).
+Qed.
+
+Lemma rf_take_row w e sh r archs1 slots1 rw :
+  Inv w -> get_loc w e = Some (sh, r) ->
+  take_row sh r (w_archs w) (w_slots w) = Some (archs1, slots1, rw) ->
+  fst rw = e /\ rf_R (w_archs w) sh e (snd rw) /\
+  (forall s e' v', rf_R archs1 s e' v' <-> rf_R (w_archs w) s e' v' /\ e' <> e).
+Proof.
+  intros HI Hg Ht. apply rf_get_loc_slot in Hg.
+  destruct (inv_fwd HI _ Hg) as [a [vals [Hf Hr]]].
+  assert (He : (fst e, snd e) = e) by (destruct e; reflexivity). rewrite He in Hr.
+  unfold take_row in Ht. rewrite Hf in Ht. cbn [obind] in Ht.
+  rewrite Hr in Ht. cbn [obind] in Ht.
+  rf_bind Ht lastrow El.
+  rf_bind Ht sl Esl.
+  inversion Ht; subst archs1 slots1 rw. cbn [fst snd].
+  assert (HRe : rf_R (w_archs w) sh e vals) by (eapply rf_find_R; eauto).
+  split; auto. split; auto.
+  assert (Hrl : r < length (a_rows a)) by (apply nth_error_Some; congruence).
+  pose proof (inv_nodup HI) as ND.
+  intros s e' v'. rewrite rf_R_upd_arch. split.
+  - intros [a1 [Ha1 [Hs1 Hin]]]. destruct (shape_eqb s sh) eqn:E.
+    + apply shape_eqb_eq in E. revert Hs1. subst s. intros Hs1.
+      assert (a1 = a) by (eapply rf_arch_unique; eauto). subst a1.
+      apply rf_In_swap_remove in Hin as [j [Hj Hnj]]; auto.
+      split; [eapply rf_find_R; eauto|].
+      intros ->. apply Hj. eapply rf_row_unique; eauto.
+    + assert (HR1 : rf_R (w_archs w) s e' v') by (exists a1; auto).
+      split; auto. intros ->. apply shape_eqb_neq in E. apply E.
+      destruct (rf_R_fun _ _ _ _ _ _ HI HR1 HRe); auto.
+  - intros [[a1 [Ha1 [Hs1 Hin]]] Hne]. exists a1. split; auto. split; auto.
+    destruct (shape_eqb s sh) eqn:E; auto.
+    apply shape_eqb_eq in E. revert Hs1. subst s. intros Hs1.
+    assert (a1 = a) by (eapply rf_arch_unique; eauto). subst a1.
+    apply In_nth_error in Hin as [j Hj]. apply rf_In_swap_remove; auto.
+    exists j; split; auto. intros ->. pose proof (eq_trans (eq_sym Hj) Hr) as Hx. inversion Hx. congruence.
+Qed.
+
+Lemma rf_set_value w e sh r c v archs1 old :
+  Inv w -> get_loc w e = Some (sh, r) ->
+  set_value sh r c v (w_archs w) = Some (archs1, old) ->
+  exists vals, rf_R (w_archs w) sh e vals /\
+  (forall s e' v', rf_R archs1 s e' v' <->
+     (rf_R (w_archs w) s e' v' /\ e' <> e) \/
+     (s = sh /\ e' = e /\ v' = upd (rank c sh) (fun _ => v) vals)).
+Proof.
+  intros HI Hg Ht. apply rf_get_loc_slot in Hg.
+  destruct (inv_fwd HI _ Hg) as [a [vals [Hf Hr]]].
+  assert (He : (fst e, snd e) = e) by (destruct e; reflexivity). rewrite He in Hr.
+  unfold set_value in Ht. rewrite Hf in Ht. cbn [obind] in Ht.
+  rewrite Hr in Ht. cbn [obind snd] in Ht.
+  rf_bind Ht old0 Eo.
+  inversion Ht; subst archs1 old.
+  assert (HRe : rf_R (w_archs w) sh e vals) by (eapply rf_find_R; eauto).
+  exists vals. split; auto.
+  pose proof (inv_nodup HI) as ND.
+  intros s e' v'. rewrite rf_R_upd_arch. split.
+  - intros [a1 [Ha1 [Hs1 Hin]]]. destruct (shape_eqb s sh) eqn:E.
+    + apply shape_eqb_eq in E. revert Hs1. subst s. intros Hs1.
+      assert (a1 = a) by (eapply rf_arch_unique; eauto). subst a1.
+      apply rf_In_upd in Hin as [j [y [Hj Hy]]].
+      destruct (Nat.eqb_spec j r) as [Hjr|Hjr].
+      * subst j. pose proof (eq_trans (eq_sym Hj) Hr) as Hx. inversion Hx; subst y.
+        cbn [fst snd] in Hy.
+        inversion Hy; subst. right; auto.
+      * subst y. left. split; [eapply rf_find_R; eauto|].
+        intros ->. apply Hjr. eapply rf_row_unique; eauto.
+    + assert (HR1 : rf_R (w_archs w) s e' v') by (exists a1; auto).
+      left. split; auto. intros ->. apply shape_eqb_neq in E. apply E.
+      destruct (rf_R_fun _ _ _ _ _ _ HI HR1 HRe); auto.
+  - intros [[[a1 [Ha1 [Hs1 Hin]]] Hne] | [-> [-> ->]]].
+    + exists a1. split; auto. split; auto.
+      destruct (shape_eqb s sh) eqn:E; auto.
+      apply shape_eqb_eq in E. revert Hs1. subst s. intros Hs1.
+      assert (a1 = a) by (eapply rf_arch_unique; eauto). subst a1.
+      apply In_nth_error in Hin as [j Hj]. apply rf_In_upd.
+      exists j, (e', v'). split; auto.
+      destruct (Nat.eqb_spec j r) as [Hjr|Hjr]; auto.
+      subst j. pose proof (eq_trans (eq_sym Hj) Hr) as Hx. inversion Hx. congruence.
+    + exists a. split; [eapply find_arch_In; eauto|].
+      split; [eapply find_arch_shape; eauto|].
+      rewrite shape_eqb_refl. apply rf_In_upd.
+      exists r, (e, vals). split; auto. rewrite Nat.eqb_refl. reflexivity.
+Qed.
+
+(** * Freshness of the identifiers handed out by the allocator *)
+
+Lemma rf_free_inactive w i g :
+  Inv w -> In i (w_free w) -> absf w (i, g) = None.
+Proof.
+  intros HI Hin. apply rf_inactive_absf; auto.
+  apply (inv_free HI) in Hin as [g0 Hg]. unfold is_active. cbn [fst].
+  rewrite Hg. reflexivity.
+Qed.
+
+Lemma rf_beyond_inactive w i g :
+  Inv w -> length (w_slots w) <= i -> absf w (i, g) = None.
+Proof.
+  intros HI Hle. apply rf_inactive_absf; auto.
+  unfold is_active. cbn [fst].
+  apply nth_error_None in Hle. rewrite Hle. reflexivity.
+Qed.
+
+Lemma rf_alloc_one_fresh w loc slots1 free1 id :
+  Inv w -> alloc_one (w_slots w) (w_free w) loc = Some (slots1, free1, id) ->
+  absf w id = None.
+Proof.
+  intros HI H. unfold alloc_one in H. destruct (w_free w) as [|i fr] eqn:Ef.
+  - inversion H; subst. apply rf_beyond_inactive; auto.
+  - rf_bind H s Es. inversion H; subst.
+    apply rf_free_inactive; auto. rewrite Ef. left; reflexivity.
+Qed.
+
+Lemma rf_alloc_batch count : forall sh start slots free sl fr' ids,
+  alloc_batch sh start count slots free = Some (sl, fr', ids) ->
+  NoDup free -> (forall i, In i free -> i < length slots) ->
+  length ids = count /\ NoDup (map fst ids) /\
+  forall id, In id ids -> In (fst id) free \/ length slots <= fst id.
+Proof.
+  induction count as [|c IH]; intros sh start slots free sl fr' ids H ND Hb.
+  - cbn [alloc_batch] in H. inversion H; subst. cbn. split; auto. split; [constructor|tauto].
+  - cbn [alloc_batch] in H. destruct free as [|i fr].
+    + assert (Hids : ids = map (fun k => (length slots + k, 0%N)) (seq 0 (S c)))
+        by congruence.
+      clear H. subst ids. split; [rewrite map_length, seq_length; reflexivity|].
+      split.
+      * rewrite map_map. cbn [fst]. rewrite rf_map_add_seq. apply seq_NoDup.
+      * intros id Hin. apply in_map_iff in Hin as [k [Hk _]]. subst id. cbn [fst]. right; lia.
+    + rf_bind H s Es.
+      rf_bind H [[sl0 fr0] ids0] Er.
+      inversion H; subst sl0 fr0 ids. clear H.
+      inversion ND as [|? ? Hnin ND']; subst.
+      assert (Hi : i < length slots) by (apply Hb; left; reflexivity).
+      destruct (IH _ _ _ _ _ _ _ Er ND') as [Hlen [Hnd Hids]].
+      { intros j Hj. rewrite upd_length. apply Hb; right; auto. }
+      split; [cbn [length]; rewrite Hlen; reflexivity|]. split.
+      * cbn [map fst]. constructor; auto. intros Hin.
+        apply in_map_iff in Hin as [id [Hid Hin]].
+        destruct (Hids _ Hin) as [Hf|Hge].
+        -- rewrite Hid in Hf. contradiction.
+        -- rewrite upd_length in Hge. lia.
+      * intros id [<-|Hin]; [left; left; reflexivity|].
+        destruct (Hids _ Hin) as [Hf|Hge]; [left; right; auto|].
+        rewrite upd_length in Hge. right; auto.
+Qed.
+
+Lemma rf_extend_ids w sh start count sl fr' ids :
+  Inv w -> alloc_batch sh start count (w_slots w) (w_free w) = Some (sl, fr', ids) ->
+  length ids = count /\ NoDup ids /\ forall id, In id ids -> absf w id = None.
+Proof.
+  intros HI H.
+  destruct (rf_alloc_batch _ _ _ _ _ _ _ _ H (inv_free_nodup HI)) as [Hlen [Hnd Hids]].
+  { intros i Hin. apply (inv_free HI) in Hin as [g Hg].
+    apply nth_error_Some. congruence. }
+  split; auto. split; [eapply NoDup_map_inv; eauto|].
+  intros [i g] Hin. destruct (Hids _ Hin) as [Hf|Hge]; cbn [fst] in *.
+  - apply rf_free_inactive; auto.
+  - apply rf_beyond_inactive; auto.
+Qed.
+
+(** * Clear *)
+
+Lemma rf_clear_archs order : forall archs s f ev archs' s' f' ev',
+  clear_archs order (archs, s, f, ev) = Some (archs', s', f', ev') ->
+  forall a', In a' archs' ->
+  exists a, In a archs /\ a_shape a' = a_shape a /\
+            (a_rows a' = [] \/ (a' = a /\ ~ In (a_shape a) order)).
+Proof.
+  induction order as [|sh t IH]; intros archs s f ev archs' s' f' ev' H a' Ha'.
+  - cbn [clear_archs] in H. inversion H; subst. exists a'.
+    split; [assumption|]. split; [reflexivity|]. right. split; [reflexivity|]. intros [].
+  - cbn [clear_archs] in H. unfold clear_arch in H.
+    destruct (find_arch sh archs) as [a0|] eqn:Ef.
+    + rf_bind H [[[archs1 s1] f1] ev1] E1.
+      rf_bind E1 [s2 f2] E2. inversion E1; subst archs1 s1 f1 ev1. clear E1.
+      destruct (IH _ _ _ _ _ _ _ _ H _ Ha') as [a1 [Ha1 [Hs1 Hor]]].
+      apply In_upd_arch in Ha1 as [a [Ha Heq]]. exists a. split; auto.
+      destruct (shape_eqb (a_shape a) sh) eqn:E; subst a1; cbn [a_shape a_rows] in *.
+      * split; auto. left. destruct Hor as [Hor|[-> _]]; auto.
+      * split; auto. destruct Hor as [Hor|[-> Hn]]; auto.
+        right. split; auto. intros [Hc|Hc]; auto.
+        apply shape_eqb_neq in E. congruence.
+    + cbn [obind] in H.
+      destruct (IH _ _ _ _ _ _ _ _ H _ Ha') as [a1 [Ha1 [Hs1 Hor]]].
+      exists a1. split; auto. split; auto.
+      destruct Hor as [Hor|[-> Hn]]; auto.
+      right. split; auto. intros [Hc|Hc]; auto.
+      apply find_arch_None in Ef. apply Ef. rewrite Hc. apply in_map; auto.
+Qed.
+
+(** * The operations, one by one *)
+
+Lemma rf_feq_refl (m : fmap) : feq m m.
+Proof. intros e; reflexivity. Qed.
+
+Lemma rf_get_loc_none_absf w e : Inv w -> get_loc w e = None -> absf w e = None.
+Proof.
+  intros HI Hg. apply rf_inactive_absf; auto.
+  destruct (is_active w e) eqn:E; auto.
+  apply active_get_loc in E. contradiction.
+Qed.
+
+Lemma rf_get_loc_R w e sh r :
+  Inv w -> get_loc w e = Some (sh, r) -> exists vals, rf_R (w_archs w) sh e vals.
+Proof.
+  intros HI Hg. apply rf_get_loc_slot in Hg.
+  destruct (inv_fwd HI _ Hg) as [a [vals [Hf Hr]]].
+  assert (He : (fst e, snd e) = e) by (destruct e; reflexivity). rewrite He in Hr.
+  exists vals. eapply rf_find_R; eauto.
+Qed.
+
+Lemma rf_insert w ent w' r evs :
+  Inv w -> do_insert w ent = Some (w', r, evs) ->
+  spec_step (w_n w) (absf w) (Insert ent) r (absf w').
+Proof.
+  intros HI H. unfold do_insert in H. cbv zeta in H. cbn [spec_step].
+  destruct (wf_comps (w_n w) (map fst ent)) eqn:Ewf; cbn [negb] in H.
+  2:{ inversion H; subst. split; auto. apply rf_feq_refl. }
+  remember (shape_of (w_n w) (map fst ent)) as sh eqn:Esh.
+  rf_bind H [archs1 tid1] Ee.
+  rf_bind H a Ef.
+  rf_bind H [[slots1 free1] id] Ea.
+  inversion H; subst w' r evs. clear H.
+  pose proof (rf_alloc_one_fresh _ _ _ _ _ HI Ea) as Hfresh.
+  exists id. split; auto. split; auto.
+  rewrite <- rf_row_abs_canon. rewrite <- Esh.
+  apply rf_feq_add; auto.
+  intros s e' v'. cbn [w_archs with_store].
+  rewrite (rf_R_push _ _ _ _ s e' v' Ef).
+  rewrite (rf_R_ensure_for_entity _ _ _ _ _ s e' v' Ee).
+  rewrite rf_In_single. tauto.
+Qed.
+
+Lemma rf_batch_rows_In comps rows0 rw : In rw (batch_rows comps rows0) -> In rw rows0.
+Proof. unfold batch_rows. destruct comps; auto. intros []. Qed.
+
+Lemma rf_extend w comps rows0 w' r evs :
+  Inv w -> do_extend w comps rows0 = Some (w', r, evs) ->
+  spec_step (w_n w) (absf w) (Extend comps rows0) r (absf w').
+Proof.
+  intros HI H. unfold do_extend in H. cbv zeta in H. cbn [spec_step].
+  destruct (wf_comps (w_n w) comps &&
+            forallb (fun r => Nat.eqb (length r) (length comps)) rows0) eqn:Ewf;
+    cbn [negb] in H.
+  2:{ inversion H; subst. split; auto. apply rf_feq_refl. }
+  apply andb_true_iff in Ewf as [_ Hall].
+  remember (shape_of (w_n w) comps) as sh eqn:Esh.
+  remember (batch_rows comps rows0) as rows eqn:Erows.
+  rf_bind H [archs1 tid1] Ee.
+  rf_bind H a Ef.
+  rf_bind H [[slots1 free1] ids] Ea.
+  inversion H; subst w' r evs. clear H.
+  destruct (rf_extend_ids _ _ _ _ _ _ _ HI Ea) as [Hlen [Hnd Hfresh]].
+  exists ids. split; auto. split; auto. split; auto. split; auto.
+  remember (map (fun p : eid * list val => (fst p, canon_vals sh (combine comps (snd p))))
+                (combine ids rows)) as news eqn:Enews.
+  assert (Hkeys : map fst news = ids).
+  { rewrite Enews, map_map. cbn [fst].
+    change (map (fun x : eid * list val => fst x) (combine ids rows))
+      with (map fst (combine ids rows)).
+    apply rf_map_fst_combine; auto. }
+  assert (Hkv : combine ids (map (fun rw => cvec_of (w_n w) (combine comps rw)) rows) =
+                map (fun p => (fst p, row_abs sh (snd p))) news).
+  { rewrite rf_combine_map_r, Enews, map_map. apply map_ext_in.
+    intros [id rw] Hin. cbn [fst snd]. f_equal.
+    apply in_combine_r in Hin. rewrite Erows in Hin. apply rf_batch_rows_In in Hin.
+    rewrite forallb_forall in Hall. apply Hall in Hin. apply Nat.eqb_eq in Hin.
+    rewrite <- rf_row_abs_canon.
+    rewrite rf_map_fst_combine by auto. rewrite <- Esh. reflexivity. }
+  rewrite Hkv. apply rf_feq_ext; auto.
+  - rewrite Hkeys; auto.
+  - intros e v Hin. apply Hfresh. rewrite <- Hkeys.
+    apply in_map_iff. exists (e, v); auto.
+  - intros s e' v'. cbn [w_archs with_store].
+    rewrite (rf_R_push _ _ _ _ s e' v' Ef).
+    rewrite (rf_R_ensure_for_entity _ _ _ _ _ s e' v' Ee).
+    tauto.
+Qed.
+
+Lemma rf_remove w e w' r evs :
+  Inv w -> do_remove w e = Some (w', r, evs) ->
+  spec_step (w_n w) (absf w) (Remove e) r (absf w').
+Proof.
+  intros HI H. unfold do_remove in H. cbn [spec_step].
+  destruct (get_loc w e) as [[sh r0]|] eqn:Eg.
+  - rf_bind H [[archs1 slots1] rw] Et.
+    rf_bind H [slots2 free2] Efr.
+    inversion H; subst w' r evs. clear H. split; auto.
+    destruct (rf_take_row _ _ _ _ _ _ _ HI Eg Et) as [_ [_ HR]].
+    apply rf_feq_del; auto.
+  - inversion H; subst w' r evs. split; auto.
+    intros e'. unfold fupd. destruct (eid_eqb e' e) eqn:E; auto.
+    apply eid_eqb_eq in E; subst. apply rf_get_loc_none_absf; auto.
+Qed.
+
+Lemma rf_clear w visit w' r evs :
+  Inv w -> do_clear w visit = Some (w', r, evs) ->
+  spec_step (w_n w) (absf w) (Clear visit) r (absf w').
+Proof.
+  intros HI H. unfold do_clear in H. cbn [spec_step].
+  rf_bind H [[[archs1 slots1] free1] evs1] Ec.
+  inversion H; subst w' r evs. clear H. split; auto.
+  apply rf_feq_intro.
+  - intros e cv Hin. exfalso.
+    apply rf_in_abs in Hin as [s [v [[a' [Ha' [Hs Hin]]] _]]].
+    cbn [w_archs with_store] in Ha'.
+    destruct (rf_clear_archs _ _ _ _ _ _ _ _ _ Ec _ Ha') as [a [Ha [_ [Hnil|[-> Hn]]]]].
+    + rewrite Hnil in Hin. destruct Hin.
+    + apply Hn. apply in_or_app. right. apply in_map; auto.
+  - intros e Hne. congruence.
+Qed.
+
+Lemma rf_entry_add w e c v w' r evs :
+  Inv w -> do_entry_add w e c v = Some (w', r, evs) ->
+  spec_step (w_n w) (absf w) (EntryAdd e c v) r (absf w').
+Proof.
+  intros HI H. unfold do_entry_add in H. cbn [spec_step].
+  destruct (Nat.ltb c (w_n w)) eqn:Ec; cbn [negb] in H.
+  2:{ inversion H; subst. split; auto. apply rf_feq_refl. }
+  apply Nat.ltb_lt in Ec.
+  destruct (get_loc w e) as [[sh r0]|] eqn:Eg.
+  2:{ inversion H; subst. rewrite (rf_get_loc_none_absf _ _ HI Eg).
+      split; auto. apply rf_feq_refl. }
+  destruct (get_bit c sh) eqn:Eb.
+  - rf_bind H [archs1 old] Es.
+    inversion H; subst w' r evs. clear H.
+    destruct (rf_set_value _ _ _ _ _ _ _ _ HI Eg Es) as [vals [HRe HR]].
+    destruct (rf_R_shapes _ _ _ _ HI HRe) as [Hn Hl].
+    rewrite (rf_absf_R _ _ _ _ HI HRe). split; auto.
+    rewrite <- rf_row_abs_overwrite by auto.
+    apply rf_feq_set; auto.
+  - rf_bind H [[archs1 slots1] rw] Et.
+    cbv zeta in H.
+    rf_bind H [archs2 slots2] Em.
+    inversion H; subst w' r evs. clear H.
+    destruct (rf_take_row _ _ _ _ _ _ _ HI Eg Et) as [Hfst [HRe HR1]].
+    destruct (rf_R_shapes _ _ _ _ HI HRe) as [Hn Hl].
+    rewrite (rf_absf_R _ _ _ _ HI HRe). split; auto.
+    rewrite <- rf_row_abs_insert by (auto; lia).
+    apply rf_feq_set; auto.
+    intros s e' v'. cbn [w_archs with_store].
+    rewrite (rf_move_row _ _ _ _ _ _ _ Em s e' v'). rewrite HR1. rewrite Hfst. tauto.
+Qed.
+
+Lemma rf_entry_remove w e c w' r evs :
+  Inv w -> do_entry_remove w e c = Some (w', r, evs) ->
+  spec_step (w_n w) (absf w) (EntryRemove e c) r (absf w').
+Proof.
+  intros HI H. unfold do_entry_remove in H. cbn [spec_step].
+  destruct (Nat.ltb c (w_n w)) eqn:Ec; cbn [negb] in H.
+  2:{ inversion H; subst. split; auto. apply rf_feq_refl. }
+  apply Nat.ltb_lt in Ec.
+  destruct (get_loc w e) as [[sh r0]|] eqn:Eg.
+  2:{ inversion H; subst. rewrite (rf_get_loc_none_absf _ _ HI Eg).
+      split; auto. apply rf_feq_refl. }
+  destruct (get_bit c sh) eqn:Eb.
+  - rf_bind H [[archs1 slots1] rw] Et.
+    rf_bind H old Eo.
+    cbv zeta in H.
+    rf_bind H [archs2 slots2] Em.
+    inversion H; subst w' r evs. clear H.
+    destruct (rf_take_row _ _ _ _ _ _ _ HI Eg Et) as [Hfst [HRe HR1]].
+    rewrite (rf_absf_R _ _ _ _ HI HRe). split; auto.
+    rewrite <- rf_row_abs_remove by auto.
+    apply rf_feq_set; auto.
+    intros s e' v'. cbn [w_archs with_store].
+    rewrite (rf_move_row _ _ _ _ _ _ _ Em s e' v'). rewrite HR1. rewrite Hfst. tauto.
+  - inversion H; subst w' r evs. clear H.
+    destruct (rf_get_loc_R _ _ _ _ HI Eg) as [vals HRe].
+    destruct (rf_R_shapes _ _ _ _ HI HRe) as [Hn Hl].
+    rewrite (rf_absf_R _ _ _ _ HI HRe). split; auto.
+    rewrite rf_upd_same.
+    + intros e'. unfold fupd. destruct (eid_eqb e' e) eqn:E; auto.
+      apply eid_eqb_eq in E; subst. apply rf_absf_R; auto.
+    + rewrite rf_nth_row_abs, Eb.
+      destruct (Nat.ltb_spec c (length sh)); [reflexivity|lia].
+Qed.
+
+Lemma rf_write w e c v w' r evs :
+  Inv w -> do_write w e c v = Some (w', r, evs) ->
+  spec_step (w_n w) (absf w) (WriteMut e c v) r (absf w').
+Proof.
+  intros HI H. unfold do_write in H. cbn [spec_step].
+  destruct (Nat.ltb c (w_n w)) eqn:Ec; cbn [negb] in H.
+  2:{ inversion H; subst. split; auto. apply rf_feq_refl. }
+  apply Nat.ltb_lt in Ec.
+  destruct (get_loc w e) as [[sh r0]|] eqn:Eg.
+  2:{ inversion H; subst. rewrite (rf_get_loc_none_absf _ _ HI Eg).
+      split; auto. apply rf_feq_refl. }
+  destruct (rf_get_loc_R _ _ _ _ HI Eg) as [vals0 HRe0].
+  destruct (rf_R_shapes _ _ _ _ HI HRe0) as [Hn Hl].
+  rewrite (rf_absf_R _ _ _ _ HI HRe0).
+  assert (Hnth : nth c (row_abs sh vals0) None =
+                 if get_bit c sh then nth_error vals0 (rank c sh) else None).
+  { apply nth_error_nth. rewrite rf_nth_row_abs.
+    destruct (Nat.ltb_spec c (length sh)); [reflexivity|lia]. }
+  rewrite Hnth.
+  destruct (get_bit c sh) eqn:Eb.
+  - pose proof (rf_rank_lt_count _ _ Eb) as Hrk.
+    destruct (nth_error vals0 (rank c sh)) as [x|] eqn:Ex.
+    2:{ apply nth_error_None in Ex. lia. }
+    rf_bind H [archs1 old] Es.
+    inversion H; subst w' r evs. clear H.
+    destruct (rf_set_value _ _ _ _ _ _ _ _ HI Eg Es) as [vals [HRe HR]].
+    destruct (rf_R_fun _ _ _ _ _ _ HI HRe HRe0) as [_ ->].
+    split; auto.
+    rewrite <- rf_row_abs_overwrite by auto.
+    apply rf_feq_set; auto.
+  - inversion H; subst w' r evs. split; auto. apply rf_feq_refl.
+Qed.
+
+Lemma rf_reserve w comps w' r evs :
+  Inv w -> do_reserve w comps = Some (w', r, evs) -> feq (absf w') (absf w).
+Proof.
+  intros HI H. unfold do_reserve in H. cbv zeta in H.
+  destruct (wf_comps (w_n w) comps); cbn [negb] in H.
+  2:{ inversion H; subst. apply rf_feq_refl. }
+  rf_bind H [archs1 tid1] Ee.
+  inversion H; subst w' r evs. clear H.
+  apply rf_feq_same; auto. intros s e v. cbn [w_archs with_store].
+  apply (rf_R_ensure_for_entity _ _ _ _ _ s e v Ee).
+Qed.
+
+Lemma rf_shrink w w' r evs :
+  Inv w -> do_shrink w = Some (w', r, evs) -> feq (absf w') (absf w).
+Proof.
+  intros HI H. unfold do_shrink in H. cbv zeta in H.
+  inversion H; subst w' r evs. clear H.
+  apply rf_feq_same; auto. intros s e v. cbn [w_archs with_store].
+  unfold rf_R. split; intros [a [Ha [Hs Hin]]]; exists a.
+  - apply filter_In in Ha as [Ha _]. auto.
+  - split; auto. apply filter_In. split; auto.
+    destruct (a_rows a); [destruct Hin|reflexivity].
+Qed.
+
+Lemma rf_res_set w i v w' r evs :
+  Inv w -> do_res_set w i v = Some (w', r, evs) -> feq (absf w') (absf w).
+Proof.
+  intros HI H. unfold do_res_set in H.
+  destruct (nth_error (w_res w) i); inversion H; subst w' r evs;
+    apply rf_feq_same; auto; intros s0 e0 vv; cbn [w_archs]; tauto.
+Qed.
+
+(** * The theorems *)
+
+Theorem step_refines : forall w o w' r evs, Inv w -> step w o = Some (w', r, evs) ->
+   spec_step (w_n w) (absf w) o r (absf w').
+Proof.
+  intros w o w' r evs HI H. destruct o; cbn [step] in H.
+  - eapply rf_insert; eauto.
+  - eapply rf_extend; eauto.
+  - eapply rf_remove; eauto.
+  - eapply rf_clear; eauto.
+  - eapply rf_entry_add; eauto.
+  - eapply rf_entry_remove; eauto.
+  - eapply rf_write; eauto.
+  - cbn [spec_step]. eapply rf_reserve; eauto.
+  - cbn [spec_step]. eapply rf_shrink; eauto.
+  - cbn [spec_step]. eapply rf_res_set; eauto.
+Qed.
+
+Ltac rf_res H :=
+  repeat first
+    [ progress cbv zeta in H
+    | match type of H with
+      | obind ?o _ = _ => destruct o as [?|] eqn:?; cbn [obind] in H; [|discriminate]
+      | (if ?b then _ else _) = _ => destruct b
+      | (match ?x with _ => _ end) = _ => destruct x
+      end ];
+  inversion H; subst; reflexivity.
+
+Theorem step_res : forall w o w' r evs, step w o = Some (w', r, evs) ->
+   w_res w' = spec_res (w_res w) o.
+Proof.
+  intros w o w' r evs H. destruct o; cbn [step spec_res] in *.
+  - unfold do_insert in H. rf_res H.
+  - unfold do_extend in H. rf_res H.
+  - unfold do_remove in H. rf_res H.
+  - unfold do_clear in H. rf_res H.
+  - unfold do_entry_add in H. rf_res H.
+  - unfold do_entry_remove in H. rf_res H.
+  - unfold do_write in H. rf_res H.
+  - unfold do_reserve in H. rf_res H.
+  - unfold do_shrink in H. rf_res H.
+  - unfold do_res_set in H. destruct (nth_error (w_res w) i) as [old|] eqn:E.
+    + inversion H; subst. reflexivity.
+    + inversion H; subst. apply nth_error_None in E.
+      rewrite upd_oob by auto. reflexivity.
+Qed.
+
+Print Assumptions step_refines.
+Print Assumptions step_res.
+Print Assumptions absf_active.
+Print Assumptions active_get_loc.
+Print Assumptions abs_keys_nodup.
+Print Assumptions len_is_count.
+Print Assumptions cvec_of_perm.
